@@ -321,6 +321,24 @@ CHECKS['C08'] = dict(
     technique='Lean 4 proof (structural induction, verified ring normaliser, refutation in a concrete polynomial differential ring) + differential correspondence',
     design='6/C08')
 
+CHECKS['C09'] = dict(
+    text='Lean 4 theorem gateaux_dual: for every integrand of the terminal scalar fragment (fields, vector components, '
+         'derivative chains of any order, n-ary sums and products, natural-number powers, elementary functions) and every '
+         'set of (field, direction) pairs, evaluating the integrand over Mathlib\'s dual numbers K[eps]/(eps^2) with '
+         'u -> u + eps*du gives the integrand as eps^0 coefficient and, as eps^1 coefficient, exactly what the model of '
+         'linearize (Model/Linearize.lean: Leibniz, chain rule, commutation with derivatives and linear / bilinear '
+         'operators) returns — in every differential ring. Tie: random nonlinear forms (polynomial, rational, sqrt, '
+         'sin/cos/exp of the field and its derivatives; scalar, vector and two fields; domain and boundary integrals; '
+         'dims 1-3): the model\'s derivative of every region integrand is compared, after lowering, with the integrand of '
+         'the real linearize(l, u, trials=du); the oracle instantiates field, direction and test function explicitly, '
+         'perturbs the field by eps*du and differentiates with sympy; fixed corpus: independence of the auxiliary names, '
+         'NewtonIteration = (linearize, -l), known shapes.',
+    note='Trusted: Lean kernel, Mathlib DualNumber; the Gateaux derivative is the eps-coefficient over the dual numbers with '
+         'the first-order Taylor law for elementary functions; generic operators, negative and variable exponents are '
+         'covered by model + correspondence + oracle, not by the theorem.',
+    technique='Lean 4 proof over dual numbers (structural induction) + differential correspondence + numeric oracle',
+    design='6/C09')
+
 NOT_YET = 'check not built yet in this round (design in DESIGN.md section 6); will be claimed when its model, theorems and correspondence exist'
 
 
